@@ -64,7 +64,7 @@ register("C17", ["c17", "c17w", "hazards", "pins"],
          ["tokio joins/aborts tasks as documented; Arc/Weak drop semantics", "scope::run! is the only caller of Scope::run (macro hygiene)"],
          TRUSTED)
 
-register("C14", ["c14", "hazards", "pins"],
+register("C14", ["c14", "hazards"],
          "Static dominance, term and table checks of the multiplexer's flow-control and reuse mechanisms: in the inbound frame loop buffer allocation and frame hand-over are dominated by the count and byte permit acquisitions of exactly the allocated size (bounded by read_frame_size), frames carry their permits and Frame drops data before permits; semaphores come from the configured limits and Mux::run is dominated by verify(); stream counts per capability are the minimum of both sides' limits with consecutive ids and checked lookup; per iteration a new transient stream is handed out only after the previous one was closed, the limiter permit, the reservation and the OPEN exchange; on reuse the reader discards the cached partial frame and resets close_received, and stops at CLOSE; a census of narrowing casts. Isolation and ordering under all interleavings are not decided.",
          ["tokio semaphores/channels behave as documented", "ExclusiveLock hands the half back only when the previous Stream is dropped"],
          TRUSTED)
